@@ -22,8 +22,10 @@ M = [
   'enqueue no longer waits for the storage writes'),
  ('M02b', 'C02', 'slimta/edge/smtp.py', "        for _, result in results:\n            if isinstance(result, (QueueError, RelayError)):\n                error = result\n                break\n        if isinstance(error, QueueError):\n            default_reply = Reply('451'",
   "        if isinstance(error, QueueError):\n            default_reply = Reply('451'", 'SMTP edge looks at the first enqueue result only'),
- ('M03a', 'C03', 'slimta/queue/__init__.py', "        if id in self.active_ids:\n            return\n        self.active_ids.add(id)\n        try:\n            envelope, attempts = self.store.get(id)",
-  "        self.active_ids.add(id)\n        try:\n            envelope, attempts = self.store.get(id)", '_dequeue ignores the in-flight set'),
+ # (the former M03a, "_dequeue ignores the in-flight set", became equivalent once _add_queued and enqueue() kept in-flight
+ # and early-announced ids off the timetable: nothing can reach _dequeue for an id in flight any more)
+ ('M03a', 'C03', 'slimta/queue/__init__.py', "        self.active_ids.add(id)\n        try:\n            envelope, attempts = self.store.get(id)\n        except KeyError:\n            self.active_ids.discard(id)\n            return\n        except BaseException:\n            self.active_ids.discard(id)\n            raise",
+  "        try:\n            envelope, attempts = self.store.get(id)\n        except KeyError:\n            return\n        self.active_ids.add(id)", 'the in-flight mark is set only after the envelope has been read'),
  ('M03b', 'C03', 'slimta/queue/__init__.py', "        for index in sorted(rcpt_indexes, reverse=True):", "        for index in sorted(rcpt_indexes):", 'delivered recipients deleted in ascending index order'),
  ('M04a', 'C04', 'slimta/diskstorage/__init__.py', "            except OSError:\n                logging.log_exception(__name__, queue_id=id)", "            except KeyError:\n                logging.log_exception(__name__, queue_id=id)",
   'start-up scan no longer tolerates a missing meta file'),
@@ -69,7 +71,7 @@ M = [
  ('M18b', 'C18', 'slimta/util/proxyproto.py', "        assert port_num >= 0 and port_num <= 65535, \\", "        assert port_num >= 0 and port_num <= 65536, \\", 'port range off by one'),
  ('M19a', 'C19', 'slimta/relay/pool.py', "        if not self.pool_size or len(self.pool) < self.pool_size:", "        if not self.pool_size or len(self.pool) <= self.pool_size:", 'pool bound off by one'),
  ('M19b', 'C19', 'slimta/relay/smtp/client.py', "                    self.queue.appendleft((result, envelope))\n                    break", "                    break", 'request dropped when the server had timed out'),
- ('M20a', 'C20', 'slimta/envelope/__init__.py', "_HEADER_BOUNDARY = re.compile(br'\\r?\\n\\s*?\\n')", "_HEADER_BOUNDARY = re.compile(br'\\r?\\n\\s*\\n')", 'greedy header boundary eats leading blank lines of the body'),
+ ('M20a', 'C20', 'slimta/envelope/__init__.py', "_HEADER_BOUNDARY = re.compile(br'(?:\\A|\\r?\\n)\\s*?\\n')", "_HEADER_BOUNDARY = re.compile(br'(?:\\A|\\r?\\n)\\s*\\n')", 'greedy header boundary eats leading blank lines of the body'),
  ('M20b', 'C20', 'slimta/envelope/__init__.py', "        new_env = copy.deepcopy(self)", "        new_env = copy.copy(self)", 'copy() is shallow'),
 ]
 
